@@ -465,3 +465,70 @@ def where_clause_rule(crate, prop, rule="C16.R11"):
                "for `<X as Tr>::Assoc` only the parameters inside X are bounded, not the projection: `#[ts(optional_fields)] struct O<T> { t: T }` renders `<<T as TS>::OptionInnerType as TS>::name()` and does not compile", uf.file(), uf.line())
     r.floor = 2
     return r
+
+
+# ------------------------------------------------------------------ rename_all spellings
+
+def inflection_table_rule(crate, prop, rule="C09.R4"):
+    """the eight spellings serde accepts for rename_all, each bound to the rule of the same name"""
+    from rules.export_rules import _bool_switch
+    r = Result(rule, "the attribute parser maps exactly serde's eight rename_all spellings to the rule of the same name (lowercase, UPPERCASE, camelCase, snake_case, PascalCase, SCREAMING_SNAKE_CASE, kebab-case, SCREAMING-KEBAB-CASE) and rejects every other string with an error; read off the MIR of parse_assign_inflection and the functions it was split into: which string comparison leads to which `Inflection::` value")
+    WANT = {"lowercase": "Lower", "UPPERCASE": "Upper", "camelCase": "Camel", "snake_case": "Snake", "PascalCase": "Pascal",
+            "SCREAMING_SNAKE_CASE": "ScreamingSnake", "kebab-case": "Kebab", "SCREAMING-KEBAB-CASE": "ScreamingKebab"}
+    root = crate.body("attr::parse_assign_inflection")
+    if root is None:
+        r.fail(prop, "anchor-missing parse_assign_inflection", "not found")
+        return r
+    # the function that holds the table: parse_assign_inflection or something it calls
+    cg = crate.callgraph(("TS",))
+    reach, todo = set(), [root.path]
+    while todo:
+        p = todo.pop()
+        if p in reach:
+            continue
+        reach.add(p)
+        todo += [q for q in cg.get(p, ()) if q.startswith("attr::") or "{closure" in q]
+    got, holder = {}, None
+    for b in [x for x in crate.bodies if x.path in reach]:
+        for blk, t in b.calls():
+            if b.is_cleanup(blk) or not fn_matches(t, r"PartialEq.*::eq$", r"cmp::PartialEq::eq$") or len(t["args"]) < 2:
+                continue
+            lit = None
+            for a in t["args"]:
+                c = _const_of(b, a)
+                if c is not None and c.get("str") is not None:
+                    lit = c["str"]
+            if lit is None:
+                continue
+            sw = _bool_switch(b, blk)
+            if not sw or sw[1] is None:
+                continue
+            # the Inflection value built behind the true edge, before the arms rejoin
+            sel = None
+            region = b.reachable_from([sw[1]], stop=lambda x: len([p for p in b.preds()[x] if not b.is_cleanup(p)]) > 1 and x != sw[1])
+            for x in sorted(region):
+                for st in b.stmts(x):
+                    if st["k"] == "assign" and st["rv"]["k"] == "agg" and str(st["rv"].get("adt", "")).endswith("Inflection") and sel is None:
+                        sel = st["rv"].get("variant")
+            if sel is not None:
+                got[lit] = sel
+                holder = b
+    if holder is None:
+        r.fail(prop, "anchor-missing rename_all table", "no comparison of the attribute's text with the rule names was found in parse_assign_inflection or what it calls", root.file(), root.line())
+        return r
+    for k, v in WANT.items():
+        ok = got.get(k) == v
+        r.inst(spelling=k, selects=got.get(k), expected=v, ok=ok, table_in=holder.path)
+        if not ok:
+            r.fail(prop, "rename-all-spelling %s" % k, "`rename_all = \"%s\"` selects %s, serde's rule of that name is %s" % (k, got.get(k), v), holder.file(), holder.line())
+    for k in sorted(set(got) - set(WANT)):
+        r.fail(prop, "rename-all-spelling-extra %s" % k, "`%s` is accepted for rename_all but is not one of serde's spellings" % k, holder.file(), holder.line())
+    # everything else is an error: on the way from "no comparison matched" to the return of parse_assign_inflection an error is built
+    errs = any(fn_matches(t, r"syn::Error::new(_spanned)?$", r"syn::error::Error::new") for b in crate.bodies if b.path in reach for _, t in b.calls())
+    none_or_err = any(st["k"] == "assign" and st["rv"]["k"] == "agg" and st["rv"].get("variant") in ("None", "Err") and st["dst"]["l"] == 0
+                      for blk in range(holder.n) for st in holder.stmts(blk)) or any(fn_matches(t, r"syn::Error::new") for _, t in holder.calls())
+    r.inst(other_values_rejected=bool(errs and none_or_err))
+    if not (errs and none_or_err):
+        r.fail(prop, "rename-all-unknown-accepted", "a value that is not one of the eight spellings is not rejected with an error", holder.file(), holder.line())
+    r.floor = 9
+    return r
